@@ -268,6 +268,10 @@ impl MarshalledMessage {
 
     pub fn unmarshall_all<'a, 'e>(self) -> Result<message::Message<'a, 'e>, UnmarshalError> {
         let params = if self.body.sig.is_empty() {
+            // no signature means no values, so there must not be any bytes either
+            if !self.body.get_buf().is_empty() {
+                return Err(UnmarshalError::NotAllBytesUsed);
+            }
             vec![]
         } else {
             let sigs: Vec<_> = crate::signature::Type::parse_description(&self.body.sig)?;
